@@ -19,7 +19,7 @@ func init() {
 			"(R2) the cache fill on registration, the cache update on table activation and all cached consumers apply the same selection predicate as uncached iteration and re-check emptiness and per-call relations (rule C03/R1); " +
 			"(R3) cache entries handed to open queries stay valid: entries are held by pointer, or no function outside lock-guarded operations moves or zeroes entries in place; " +
 			"(R4) resetting the cache detaches every registered filter and clears index, entries and id pool; " +
-			"(R5) every site that passes a filter's permanent relations passes the view limited to the permanent count, never the scratch tail used for per-call targets. " +
+			"(R5) every site that passes a filter's permanent relations passes the view limited to the permanent count, never the scratch tail used for per-call targets; (R6) cache entries are not pooled behind the back of open queries; (R7) a loop over the storage's whole table list that collects table ids looks at the free flag of each table (free tables keep their old targets until they are recycled). " +
 			"Not decided: equality of the two enumerations for every history.",
 		TrustedBase: []string{"go/types, go/cfg", "rules C03/R1, C04/R3, C04/R4 as defined for their properties"},
 		Rules: []Rule{
@@ -29,6 +29,7 @@ func init() {
 			{ID: "C05/R4", Run: c05r4, Min: 1},
 			{ID: "C05/R5", Run: c05r5, Min: 1},
 			{ID: "C05/R6", Run: c05r6, Min: 1},
+			{ID: "C05/R7", Run: c05r7, Min: 0},
 		},
 	})
 }
@@ -292,5 +293,49 @@ func c05r6(c *core.Ctx) {
 		} else {
 			c.Violation("C05/R6", subject, bad, fmt.Sprintf("%s %s, but branches on a table's row count at %s; a table that is empty now and refilled later is never offered to the cache again, so the registered filter would miss its entities", f.Name, fill[f], bad))
 		}
+	}
+}
+
+// c05r7: tables are never selected from the list of all tables without looking at the free flag.
+//
+// The storage's table list contains the tables on the archetypes' free lists as well; they keep their old relation
+// targets and their old length is zero, so a selection that walks the table list itself (instead of the archetypes'
+// active lists) and keeps what matches also keeps free tables, which are later recycled for other targets. Every loop
+// over the whole table list whose body puts table ids into a list therefore reads the free flag of the table.
+func c05r7(c *core.Ctx) {
+	m := c.M
+	for _, f := range m.AllFuncs() {
+		core.InspectNoLits(f.Body, func(n ast.Node) bool {
+			body, ok := loopOverAll(m, n, "storage.tables")
+			if !ok {
+				return true
+			}
+			selects, readsFree := false, false
+			ast.Inspect(body, func(x ast.Node) bool {
+				switch y := x.(type) {
+				case *ast.CallExpr:
+					if m.IsBuiltin(y, "append") && len(y.Args) >= 2 {
+						if sl, ok := m.Info.TypeOf(y.Args[0]).Underlying().(*types.Slice); ok && core.NamedName(sl.Elem()) == "tableID" {
+							selects = true
+						}
+					}
+				case *ast.SelectorExpr:
+					if fieldKeyOf(m, y) == "table.isFree" {
+						readsFree = true
+					}
+				}
+				return true
+			})
+			if !selects {
+				return true
+			}
+			subject := f.Name + ": selection from the list of all tables"
+			if readsFree {
+				c.OK("C05/R7", subject, c.At(n.Pos()), "the loop over all tables looks at the free flag before it keeps a table")
+			} else {
+				c.Violation("C05/R7", subject, c.At(n.Pos()), f.Name+" collects table ids in a loop over the storage's whole table list without looking at the free flag; tables on a free list (which keep their old targets until recycled) would be selected, and recycled later under other targets")
+			}
+			return true
+		})
 	}
 }
